@@ -238,7 +238,8 @@ class SyncedDict(SyncedCollection, MutableMapping):
 
     def clear(self):  # noqa: D102
         if self._root is None:
-            self._data = {}
+            # Clear in place: buffers may hold a reference to the container.
+            self._data.clear()
             with self._thread_lock:
                 self._save()
         else:
